@@ -1,6 +1,7 @@
 #!/bin/sh
 # confirm_seed.sh <seed name> : in a scratch worktree verify (1) the suite passes with the patch, (2) the demo fails with
-# the patch, (3) the demo passes without it.  Writes /verif/seeded/<name>/confirm.json
+# the patch, (3) the demo passes without it.  Writes /verif/seeded/<name>/confirm.json.  Seeds of C20 run the demo in
+# both feature configurations (default = std, and --no-default-features --features alloc).
 S=/verif/seeded/$1
 WT=/tmp/wt_confirm_$1
 export CARGO_NET_OFFLINE=true CARGO_TARGET_DIR=/tmp/wt_confirm_target
@@ -11,11 +12,20 @@ if grep -q "rsadsb_common" $S/patch.diff; then DEMO=rsadsb_common/tests/seed_dem
 [ -f $S/demo_path.txt ] && DEMO=$(cat $S/demo_path.txt)
 case $DEMO in rsadsb_common/*) PKG=rsadsb_common;; libadsb_deku/*) PKG=adsb_deku;; esac
 git apply $S/patch.diff || { echo '{"applies": false}' > $S/confirm.json; exit 1; }
-cargo test --workspace --offline > /tmp/confirm_$1_suite.log 2>&1; SUITE=$?
+cargo test --workspace --no-fail-fast --offline > /tmp/confirm_$1_suite.log 2>&1; SUITE=$?
 mkdir -p $(dirname $DEMO); cp $S/demo.rs $DEMO
 cargo test -p $PKG --test seed_demo --offline > /tmp/confirm_$1_with.log 2>&1; WITH=$?
+ALLOC=""
+case $1 in C20*)
+  cargo test -p $PKG --test seed_demo --offline --no-default-features --features alloc > /tmp/confirm_$1_with_alloc.log 2>&1; WITHA=$?;;
+esac
 git checkout -- . 2>/dev/null
 cargo test -p $PKG --test seed_demo --offline > /tmp/confirm_$1_without.log 2>&1; WITHOUT=$?
+case $1 in C20*)
+  cargo test -p $PKG --test seed_demo --offline --no-default-features --features alloc > /tmp/confirm_$1_without_alloc.log 2>&1; WITHOUTA=$?
+  ALLOC=$(printf ', "demo_alloc_with_patch": %d, "demo_alloc_without_patch": %d' $WITHA $WITHOUTA);;
+esac
 cd /; git -C /repo worktree remove --force $WT >/dev/null 2>&1
-printf '{"applies": true, "suite_exit_with_patch": %d, "demo_exit_with_patch": %d, "demo_exit_without_patch": %d}\n' $SUITE $WITH $WITHOUT > $S/confirm.json
+printf '{"applies": true, "suite_exit_with_patch": %d, "demo_exit_with_patch": %d, "demo_exit_without_patch": %d%s}\n' $SUITE $WITH $WITHOUT "$ALLOC" > $S/confirm.json
+rm -f /tmp/confirm_$1_*.log
 cat $S/confirm.json
